@@ -125,6 +125,9 @@ def make_filter_class(script, rec, w=None, meta=None):
             if o == 'ok':
                 if k + 1 >= len(loop) or loop[k + 1][0]:
                     self.stop_evt.set()  # external stop / end of script
+                if script.get('emit'):
+                    from openfilter.filter_runtime.frame import Frame as _Frame
+                    return _Frame({'k': k})      # a filter that has something to send (nobody is connected: the send times out)
                 return None
             raise_outcome(self, o)
 
@@ -355,6 +358,10 @@ def life_oracle(run, s, obs, props):
                 run.violation('raised-on-clean-exit %s' % key, 'run() raised although nothing but clean exits happened', case)
             if len(faults) == 1 and hard and obs['result'] == 0:
                 run.violation('returned-on-error %s' % key, 'run() returned normally although %s raised' % (faults[0],), case)
+        # run() raises for errors, whatever came BEFORE: a shutdown() that raised an exception is an error even when the loop was left
+        # by a clean exit() (a later stage that itself exits or raises replaces the exception: not judged here)
+        if names.count('d') == 1 and s['shutdown'] in ('exc', 'base') and s['fini'] == 'ok' and s['send_exit'] == 'ok' and obs['result'] == 0:
+            run.violation('returned-on-error shutdown-raised-after %s' % key, 'shutdown() raised and run() returned normally', case)
         ann = [r[1] for r in tr if r[0] == 'e']
         if len(ann) > 1:
             run.violation('announced-twice %s' % key, 'exit announced %d times' % len(ann), case)
